@@ -6,6 +6,7 @@
    Final blocks only: the filter also drops a repeated final block (the fix "each final block once": `seen`). *)
 From BV Require Import Base.Prelude Model.Block Model.ForkDB Model.Forkable Model.ForkableLookups
   Model.Burst Model.Hub Model.CursorResolver Model.Joining
+  Spec.Consumer Spec.Universe Check.Burst_Check Check.C07_Check Spec.C06_Spec Spec.C09_Spec
   Spec.C07_Spec Spec.C13_Spec Spec.C07_Compose_Spec Spec.C07_Shapes_Spec Spec.C07_More_Spec.
 Local Open Scope N_scope.
 
@@ -34,3 +35,88 @@ Definition C13_stop_over_raw : Prop :=
         chain_over c (X1 ++ e :: X2) res) \/
     (* ... or the file source reported the end of the bundle of S *)
     (j_stop c <> 0 /\ (j_stop c / j_bundle c + 1) * j_bundle c <= merged_end).
+
+
+(* ------------------------------------------------------------------ the stop clause at stream level, target-cursor mode *)
+
+(* "A run that ends with stop-block-reached holds canon from the start point up to block S itself", target-cursor mode:
+   the hypotheses of c07_seamless_target_nu (Spec/C07_More_Spec.v: no agreement hypothesis between files, cursor and hub;
+   the cursor minted on the chain) and the scope hypothesis "the target cursor is not beyond the stop block".  Without it
+   the clause is false: the file source of this mode holds back the blocks between the cursor LIB and the cursor block
+   until it has seen the cursor block, it reads the files only up to the bundle of S, and with the cursor block beyond that
+   bundle the stream ends with stop-block-reached having delivered nothing above the cursor LIB (the target-mode form of
+   c13_stop_full_refuted).
+   stop_reached (Spec/C07_More_Spec.v): the chain stopped on the first passing event e numbered at or above S; e is
+   delivered iff it is numbered S; when e announces a canonical block it is block S itself if canon has a block numbered
+   S, and the consumer then holds, from start on, exactly canon up to block S - whether S is reached in the files, in the
+   hub's answer at the join (also the answer for a cursor block stored off the hub's chain) or live; or the file source
+   reported the end of the bundle of S, no canonical block is numbered S and the consumer holds the merged blocks from
+   start below S. *)
+Definition C13_stop_target : Prop :=
+  forall (U : list block) (c : jcfg) (w : world) (ps : list (N * N)) (merged_end : N) (canon forked : list block)
+         (cu : cursor) (B : block),
+    wf_b U = true -> lib_ok_b LNone U = true ->
+    hub_of_universe U c w ->
+    chain_ok canon -> incl canon U ->
+    let merged := filter (fun b => bnum b <? merged_end) canon in
+    eventual_tip c w canon ->
+    j_mode c = 2 -> j_cursor c = Some cu -> has_nu (j_filter c) (j_custom c) = true ->
+    0 < j_bundle c -> Forall (fun b => bnum b < file_bound) merged ->
+    In B canon -> bref B = cu_blk cu -> cursor_lib_on canon cu B ->
+    rn (cu_blk cu) <= j_stop c ->
+    let res := stream_run c w ps merged_end merged forked in
+    let start := run_start c w in
+    (exists b, In b canon /\ bnum b = start) ->
+    exists c', cons_fold_aside cons0 (map as_new (filter is_nu (fst res))) = Some c' /\
+               (snd res = JStop -> stop_reached c canon merged start (fst res) (cs_stack c')).
+
+(* ------------------------------------------------------------------ the stop clause at stream level, cursor mode *)
+
+(* The same in cursor mode: the hypotheses of c07_seamless_cursor_nu (Spec/C07_More_Spec.v: the consumer at the cursor
+   holds hc, canonical, and hf, pending forked blocks, above the cursor LIB block L), the stop block S is a block of the
+   chain and lies beyond the cursor block.  The start point is the first canonical block above L.  A run that ends with
+   stop-block-reached stopped on the event that announces block S and the consumer - the forked blocks undone - holds,
+   from the start point on, exactly canon up to block S: whether S is reached in the files (after the resolver's Undo /
+   Irreversible events), in the hub's answer to the cursor (Undo down to the junction, New up to the head) or at the join,
+   or live.  Scope: with the cursor block at or beyond S the consumer already holds block S or the resolver never reaches
+   its decision within the bundle of S (c13_stop_full_refuted); with S on a skipped number the file source ends at the
+   bundle of S and the statement about what the consumer then holds needs the resolver to have decided
+   (c13_stop_cursor_partial has that hypothesis, `reached`). *)
+Definition C13_stop_cursor_holds : Prop :=
+  forall (U : list block) (c : jcfg) (w : world) (ps : list (N * N)) (merged_end : N) (canon forked : list block)
+         (cu : cursor) (L : block) (rest hc hf : list block),
+    wf_b U = true -> lib_ok_b LNone U = true ->
+    hub_of_universe U c w ->
+    chain_ok canon -> incl canon U ->
+    let merged := filter (fun b => bnum b <? merged_end) canon in
+    eventual_tip c w canon ->
+    j_mode c = 1 -> j_cursor c = Some cu -> has_nu (j_filter c) (j_custom c) = true ->
+    0 < j_bundle c -> Forall (fun b => bnum b < file_bound) merged ->
+    from_num (rn (cu_lib cu)) canon = L :: rest -> bref L = cu_lib cu ->
+    cursor_state canon forked cu L hc hf ->
+    Forall (fun x => In x U) hf ->
+    (cu_step cu = SUndo -> exists X, In X U /\ bref X = cu_blk cu /\ branch_from L (hc ++ hf ++ [X])) ->
+    rn (cu_blk cu) < j_stop c -> (exists bS, In bS canon /\ bnum bS = j_stop c) ->
+    let res := stream_run c w ps merged_end merged forked in
+    let start := match rest with r1 :: _ => bnum r1 | [] => bnum L + 1 end in
+    exists c', cons_fold_aside (mkCons (rev (hc ++ hf)) 0 false) (map as_new (filter is_nu (fst res))) = Some c' /\
+               (snd res = JStop -> stop_reached c canon merged start (fst res) (cs_stack c')).
+
+(* The scope hypothesis of C13_stop_target is needed: with the target cursor block beyond the bundle of the stop block -
+   here stop block 9, bundle 10, target cursor {New, block 14, LIB 6}, start 5 - every other hypothesis of C13_stop_target holds
+   and the stream ends with stop-block-reached having delivered blocks 5 and 6 only (the blocks above the cursor LIB are held
+   back until the cursor block is seen, and the files are read up to the bundle of S only): canon has block 9 and the consumer
+   does not hold it.  The real code does the same (replayed). *)
+Definition C13_stop_target_scope_needed : Prop :=
+  exists (U : list block) (c : jcfg) (w : world) (ps : list (N * N)) (merged_end : N) (canon forked : list block)
+         (cu : cursor) (B : block),
+    let merged := filter (fun b => bnum b <? merged_end) canon in
+    wf_b U = true /\ lib_ok_b LNone U = true /\ hub_of_universe U c w /\
+    chain_ok canon /\ incl canon U /\ eventual_tip c w canon /\
+    j_mode c = 2 /\ j_cursor c = Some cu /\ j_filter c = 0 /\ 0 < j_bundle c /\
+    Forall (fun b => bnum b < file_bound) merged /\
+    In B canon /\ bref B = cu_blk cu /\ cursor_lib_on canon cu B /\
+    (exists b, In b canon /\ bnum b = run_start c w) /\
+    (exists bS, In bS canon /\ bnum bS = j_stop c) /\
+    let res := stream_run c w ps merged_end merged forked in
+    snd res = JStop /\ map (fun e => bnum (eblk e)) (fst res) = [run_start c w; run_start c w + 1] /\ run_start c w + 1 < j_stop c.
